@@ -194,6 +194,9 @@ fn private_table_lookups(rep: &mut Report, when: &str) {
 
 /// a provider object that lives for the whole run
 static KEPT: PublicSuffixList = PublicSuffixList::new();
+/// A provider obtained the other documented way, through `Default` (what `#[derive(Default)]` on an
+/// embedding struct produces); it is the same list and has to give the same answers.
+static DEFAULTED: std::sync::OnceLock<PublicSuffixList> = std::sync::OnceLock::new();
 
 /// One provider object used by several threads at once (a client requires `Sync` of its provider and is
 /// meant to be shared): every answer equals the one a fresh object gives to the same name in one thread.
@@ -282,6 +285,15 @@ fn check(ctx: &mut Ctx, q: &str, canonical: bool, origin: &str) {
             }
         }
         Err((sig, detail)) => ctx.rep.violate(&format!("lookup on a provider object used before {sig}"), detail, case.clone()),
+    }
+    let dflt = DEFAULTED.get_or_init(PublicSuffixList::default);
+    match catch(|| (dflt.public_suffix(q), dflt.effective_tld_plus_one(q).ok(), dflt.is_effective_tld(q))) {
+        Ok(k) => {
+            if k != (ps, e1.as_ref().ok().copied(), is) {
+                ctx.rep.violate("a provider built through Default answers differently from one built with new()", format!("Default: {k:?}; new(): {:?}", (ps, e1.as_ref().ok(), is)), case.clone());
+            }
+        }
+        Err((sig, detail)) => ctx.rep.violate(&format!("lookup on a provider built through Default {sig}"), detail, case.clone()),
     }
     let empty_label = RefPsl::has_empty_label(q);
     // ---- structural clauses, any string
@@ -443,7 +455,7 @@ pub fn run(args: &Args) -> Report {
         "C10",
         &args.tier,
         args.seed,
-        "queries derived from every rule of public_suffix_list.dat (as is, +1/+2/+3 labels, leading label removed/replaced, wildcard instantiated, exception +/- a label) plus labels of 62-200 octets in wildcard positions and left of rules, plus arbitrary strings, every query also put to one provider object kept for the whole run, plus lookups on one provider object from 8-16 threads at once, plus a second Table implementation (a private five-rule list) used in the same process before and after the shipped one; distinct by query string; non-trivial when the reference says an explicit rule (normal, wildcard or exception) decides it, or the name has an empty label",
+        "queries derived from every rule of public_suffix_list.dat (as is, +1/+2/+3 labels, leading label removed/replaced, wildcard instantiated, exception +/- a label) plus labels of 62-200 octets in wildcard positions and left of rules, plus arbitrary strings, every query also put to one provider object kept for the whole run and to one built through Default, plus lookups on one provider object from 8-16 threads at once, plus a second Table implementation (a private five-rule list) used in the same process before and after the shipped one; distinct by query string; non-trivial when the reference says an explicit rule (normal, wildcard or exception) decides it, or the name has an empty label",
     );
     rep.assumptions.push("idna crate converts IDN rules to the punycode form the table is keyed in".into());
     rep.assumptions.push("reference comparison for canonical (lower-case ASCII/punycode) names, as the crate documents, and for lower-case names with non-ASCII labels none of whose label-aligned suffixes is the Unicode presentation of an IDN rule (for these the list algorithm has one answer whichever presentation of the rules is used); other strings get the structural clauses".into());
